@@ -157,7 +157,9 @@ func registerArchiveModels(e *Engine) {
 		e.setField(c.st, HT, h, "Size", Ite(Or(isDir, isLink, special), IntT(0), call("Size", types.Typ[types.Int64])))
 		e.setField(c.st, HT, h, "Linkname", Ite(isLink, c.args[1], StrT("")))
 		sock := And(special, Fresh("fih.sock", BoolS))
-		return c.ret(Ite(sock, NilLoc, h), Ite(sock, e.libErr("tar:socket"), NilIface))
+		// (the header pointer is returned on the error path too: callers check err first;
+		// a use of the nil header after an unchecked error is not modelled)
+		return c.ret(h, Ite(sock, e.libErr("tar:socket"), NilIface))
 	}
 	// a tar builder supplied by the caller (apk.writeTgz): writes an arbitrary
 	// sequence of complete entries, or fails.  archive/tar keeps
